@@ -12,6 +12,14 @@ def wSpecState (σ : Spec.State) (addrs : List Nat) : String :=
   String.intercalate " " (regs ++ [wBool f.s, wBool f.z, wBool f.v, wBool f.c, wBool f.cb, wInt σ.pc,
     wBool σ.halted] ++ mem)
 
+def wTok : Tok → String
+  | .int v => s!"I {v}"
+  | .reg v => s!"R {v}"
+  | .sym s => s!"Y {wStr s}"
+  | .str s => s!"S {wStr s}"
+
+def wDOp (d : Enc.DOp) : String := s!"{d.cls.pyName} {wList wTok d.toks}"
+
 def handle : R String := do
   let cmd ← tok
   match cmd with
@@ -48,6 +56,37 @@ def handle : R String := do
     match Cli.parseInit s with
     | some l => pure s!"ok {wList wPair l}"
     | none => pure "none"
+  | "asm" => do
+    let c ← cls
+    let args ← list val
+    match Gen.assemble c args with
+    | .ok (some b) => pure s!"ok {wList wInt b}"
+    | .ok none => pure "none"
+    | .error e => pure s!"err {e.name}"
+  | "specenc" => do
+    let c ← cls
+    let args ← list int
+    match Spec.EInstr.ofOp c args with
+    | none => pure "noinstr"
+    | some e => if decide e.Valid then pure s!"ok {Spec.encode e}" else pure "invalid"
+  | "dis" => do
+    let allow ← bool
+    let v ← int
+    match Enc.disassemble v allow with
+    | .ok d => pure s!"ok {wDOp d}"
+    | .error e => pure s!"err {e.name}"
+  | "match" => do
+    let c ← cls
+    let v ← nat
+    match Enc.matchBitvector c.BITV v with
+    | some m => pure s!"ok {wList wTok m}"
+    | none => pure "no"
+  | "subst" => do
+    let c ← cls
+    let args ← list int
+    match Enc.substituteBitvector c.BITV args with
+    | .ok b => pure s!"ok {wList wInt b}"
+    | .error e => pure s!"err {e.name}"
   | "pyint" => do
     let base ← nat
     let s ← str
